@@ -174,12 +174,17 @@ def run(ctx):
         tempfile.tempdir = tmpd
         try:
             for nrows in (0, 1, 3):
-                for ops in (hs if ctx.thorough() else rng.sample(hs, 40)):
+                # every interleaving of two iterators (a leader that fills the spill file, a follower served from it)
+                import itertools as _it
+                inter = [['n', 'n'] + ['x%d' % b for b in bits] + ['v', 'x0', 'x1', 'x0', 'x1']
+                         for bits in _it.product((0, 1), repeat=(9 if ctx.thorough() else 7))] if nrows == 3 else []
+                for ops in (hs if ctx.thorough() else rng.sample(hs, 40)) + inter:
                     view = etl.fromdicts(({'a': i} for i in range(nrows)), header=['a'])
                     its, created = [], False
                     nexts = []
                     ok = True
                     trace = []
+                    wrong_rows = []
                     for op in ops:
                         if op == 'n':
                             if view is not None:
@@ -197,10 +202,15 @@ def run(ctx):
                                 nexts[i] += 1
                                 if nexts[i] >= 2:
                                     created = True   # the first next() beyond the header creates the spill file
+                                expect = ([('a',)] + [(j,) for j in range(nrows)])
                                 try:
-                                    next(its[i])
+                                    got_row = tuple(next(its[i]))
+                                    if nexts[i] > len(expect) or got_row != expect[nexts[i] - 1]:
+                                        wrong_rows.append((i, nexts[i] - 1, got_row))
                                 except StopIteration:
                                     its[i] = None
+                                    if nexts[i] != len(expect) + 1:
+                                        wrong_rows.append((i, nexts[i] - 1, 'stopped early'))
                         reachable = view is not None or any(x is not None for x in its)
                         want = 1 if (created and reachable) else 0
                         got = nfiles(tmpd)
@@ -211,6 +221,10 @@ def run(ctx):
                     left = nfiles(tmpd, collect=True)
                     ctx.case(('dictsgen', nrows, tuple(ops)) if created else None)
                     ctx.count('fromdicts-generator')
+                    if wrong_rows:
+                        ctx.spec_fail('fromdicts|spill-file|rows',
+                                      'an iterator over fromdicts(generator), served partly from the spill file, does not deliver the correct sequence',
+                                      {'nrows': nrows, 'history': ' '.join(ops), 'wrong(iterator,position,row)': wrong_rows[:5]})
                     if left or not ok:
                         ctx.spec_fail('fromdicts|spill-file|%s' % ('leak' if left else 'lifetime'),
                                       'the spill file of fromdicts(generator) does not live exactly as long as the view is reachable',
